@@ -78,6 +78,7 @@ def plans(draw, max_calls=12):
       'serverset': {'kind': 'uri', 'initial': ports, 'events': []},
       'servers': servers, 'calls': calls, 'run_ms': 3 * T + 400, 'close_at': None,
       'reply_contexts': draw(st.booleans()), 'gate': gate,
+      'send_max': draw(st.sampled_from([None, None, 1, 7, 64, 4096])),
       'tag_state': draw(st.sampled_from([None, None, [254, []], [65534, []], [65537, [2]], [65537, [2, 3]], [2 ** 23 + 1, [2, 3]],
                                          [2 ** 16 + 2 ** 8 + 1, [2, 258]]])) if stack == 'thriftmux' else None,
   }
